@@ -7,14 +7,13 @@
     order, single mastership, conservation of work units / output slots /
     input slots, the capacities of retr_q, emit_q, reord_q, output_q, order_q
     and unord_q, quiescence at termination, no lost block, `attach_in_range`,
-    `no_unord_leak`, and `progress_partial` (a state without enabled
-    transition is quiescent).
+    `no_unord_leak`, and `progress` (deadlock-freedom: every reachable
+    non-final state has an enabled transition, under `EMIT_THRESH < total_out`).
   NOT PROVED (checked by the BFS driver `schedd-bfs` and by trace acceptance
   only, never presented as theorems): wake-up discipline (the model has no
   condition variable: an idle worker may start the selected task at any time),
-  and the second half of deadlock-freedom (no reachable quiescent state other
-  than the final ones; needs at least `EMIT_THRESH < total_out`, see
-  `progress_partial`).
+  and termination of every maximal run (a decreasing measure; deadlock-freedom
+  alone does not exclude infinite runs of the model).
 -/
 import LbzVerif.Lemmas.SchedD.Safe3
 import LbzVerif.Lemmas.SchedD.Attach
@@ -25,6 +24,7 @@ import LbzVerif.Lemmas.SchedD.Progress
 import LbzVerif.Lemmas.SchedD.Holder2
 import LbzVerif.Lemmas.SchedD.OrderCap
 import LbzVerif.Lemmas.SchedD.UnordCap2
+import LbzVerif.Lemmas.SchedD.ProgressFinal
 import LbzVerif.Lemmas.SchedD.Witness
 
 namespace LbzVerif.Props.C11.Expand
@@ -170,19 +170,37 @@ theorem no_unord_leak {c : Cfg} {s : State} (h : Reach c s) (hf : s.failed = fal
   let l := LbzVerif.Lemmas.SchedD.no_unord_leak h hf
   ⟨l.1, l.2, leakedCount_zero h hf⟩
 
-/-- **progress_partial** — the proved half of deadlock-freedom: a reachable
-    state in which no transition at all is enabled (reader, writer, any worker)
+/-- **progress** (deadlock-freedom, full strength under the stated hypotheses):
+    with at least one worker, more output slots than the emit reserve
+    (`EMIT_THRESH < total_out`), non-empty input blocks and at least one input
+    slot, every reachable state that is not final (`failf` not called, workers
+    not all gone) has an enabled transition — of the reader, the writer or a
+    worker.  The hypothesis on `total_out` is necessary: with `total_out ≤ 2` and
+    `n ≥ 2` BFS finds stuck states (an emit job of a spurious block beyond the
+    end of the stream can never take a slot once `order_q` is empty); the
+    shipped slot formulas give `total_out ≥ 2n ≥ 4` whenever scanning is possible.
+    Proof: a state without enabled transition is quiescent (`progress_partial`),
+    and a reachable quiescent state is the terminated state
+    (`Lemmas/SchedD/ProgressFinal.lean: quiescent_final`, from: the exact next
+    buffer of the head of `order_q` exists or is still to be produced; at most
+    `total_out − 2` slots are held ahead of the output position; while the
+    parse token is available a work unit is free or held by the emit job of a
+    confirmed block; a master or parser waiting for input stands at `tail_offs`
+    and then `input_q` is empty, so the reader has a free slot). -/
+theorem progress {c : Cfg} (hW : 0 < c.W) (hn : 1 ≤ c.n) (ho : EMIT_THRESH < c.totalOut)
+    (hti : 1 ≤ c.totalIn) {s : State} (h : Reach c s) (hnf : final c s = false) :
+    enabled c s ≠ [] :=
+  progress_reach hW hn ho hti h hnf
+
+/-- the hypotheses are satisfiable: the F4 shape (n = 2, in = 2, out = 4, W = 2) -/
+example : enabled cfgF4 (init cfgF4) ≠ [] :=
+  progress (c := cfgF4) (by decide) (by decide) (by decide) (by decide) Reach.init (by decide)
+
+/-- **progress_partial** (a lemma of `progress`, without hypotheses on the
+    configuration): a reachable state in which no transition at all is enabled
     is QUIESCENT: no worker is inside a task, the writer has nothing to write,
     the reader is done or blocked on `in_slots = 0`, and `select_task()` finds
-    no runnable task (or `n = 0`).  So every maximal run ends in a quiescent
-    state.
-    MISSING for `progress`: that a reachable quiescent state is final
-    (`terminated` or `failed`).  This is false without `EMIT_THRESH < total_out`
-    (BFS: with n = 2, total_out = 2 a spurious block beyond the end of the
-    stream leaves an emit job that may never take a slot once `order_q` is
-    empty) and for the rest needs the reservation arguments behind SCAN_THRESH /
-    EMIT_THRESH and an exact-cover version of the holder invariant; BFS finds
-    no stuck state on any explored shape with `total_out > EMIT_THRESH`. -/
+    no runnable task (or `n = 0`). -/
 theorem progress_partial {c : Cfg} {s : State} (_h : Reach c s) (hf : s.failed = false)
     (hs : enabled c s = []) : Quiescent c s :=
   stuck_quiescent hf hs
